@@ -1,14 +1,25 @@
 PROP = {
     "num": 5,
-    "runs": [{"tag": "c05", "bin": "c05"},
+    "runs": [{"tag": "c05", "bin": "c05", "mismatch_is_failing": False},
              # optimised build of the same cases: no debug assertions, no overflow checks, inlined unsafe paths
-             {"tag": "c05rel", "bin": "c05", "profile": "release", "tiers": ["thorough"]},
+             {"tag": "c05rel", "bin": "c05", "profile": "release", "tiers": ["thorough"], "mismatch_is_failing": False},
              # an element destructor that panics INSIDE the caller's closure of map/zip/fold and of the
              # iterator's fold/rfold: the intermediate consumer/builder/iterator is torn down by unwinding
-             {"tag": "c05forms", "bin": "c04", "args": ["--mode", "1"], "num": 4},
+             {"tag": "c05forms", "bin": "c04", "args": ["--mode", "1"], "num": 4, "mismatch_is_failing": False,
+              "failing_oracle": r"released twice|released \d+ times|unknown identity|panicked without"},
              # the same histories with every iterator method run through the program REGENERATED from
              # src/iter.rs (MuRust interpreter, GenRun.v): the translated source itself is executed
-             {"tag": "c05gen", "bin": "c05", "num": 105}],
+             {"tag": "c05gen", "bin": "c05", "num": 105, "mismatch_is_failing": False},
+             # std's provided iterator methods (find, position, any, all, skip_while, filter, max, min_by_key, rev().find,
+             # step_by, for_each(drop)) on the by-value iterator while one destructor panics: direct oracles
+             {"tag": "c05provided", "bin": "c05", "args": ["--provided"], "model": False},
+             # serde: the elements already read are torn down inside deserialize (too short / too long / faulty input
+             # from an unhinted source) while one destructor panics: nothing is released twice (direct oracle)
+             {"tag": "c05serde", "bin": "c17", "args": ["--bomb"], "model": False}],
+    # C05 forbids a second release and a read after release; it ALLOWS leaks of what unwinding abandons.  A disagreement
+    # with the model that is not one of those (a leak, a different return value) breaks the correspondence -- the check
+    # reports it -- but it is a failing input of C05 only when a direct oracle of the harness (an identity released twice,
+    # released and still handed out, unknown identity) fires on it.
     "mismatch_is_failing": True,
     "regen_files": ["GenIter.v"],
     "rule": "exhaustive: N<=6 (thorough 8) x every (front,back) position x {none, next, next_back, nth k, nth_back k for k in 0..=len+2} x every choice of the panicking element (and none) x {drop, count, last}, the caller catching every unwind and then using the iterator again; plus the teardown of the array itself, of ArrayBuilder / IntrusiveArrayBuilder with p slots written and of ArrayConsumer with p elements consumed, for every p and every panicking element; plus the array torn down inside try_from_iter when a source with size_hint (0, None) yields L <> N items (every L in 0..=N+2, every panicking element); plus seeded histories for N in {1,2,3,5,8,16,33}; run c05forms: a destructor panicking inside the caller's closure of map / zip / fold / iterator fold+rfold (every form, every call index); run c05gen: all of the above with the iterator methods and the builder / consumer Drop impls executed through the programs regenerated from the source. distinct = distinct CASE lines; non-trivial = a destructor is armed (second integer >= 0)",
